@@ -9,6 +9,7 @@ import (
 
 	"golang.org/x/tools/go/ssa"
 
+	"verif/sa/boolfn"
 	"verif/sa/core"
 	"verif/sa/lincon"
 )
@@ -347,6 +348,8 @@ func runC04(c *Ctx) {
 	}
 	// ---- R2 ----
 	arpaV6FullScan(c, "C04", 63)
+	c.L.Floor("C04.hex-table", 1)
+	c04HexTable(c, "C04")
 	// ---- R3 ----
 	if f := c.fn("netutil", "ipv4FromReversed"); f != nil {
 		var pa *ssa.Call
@@ -1038,6 +1041,8 @@ func runC05(c *Ctx) {
 	// k == 32: PrefixFromReversedAddr hands a full-length name to the address decoder
 	c.L.Floor("C05.v6.every-byte-checked", 3)
 	arpaV6FullScan(c, "C05", 64)
+	c.L.Floor("C05.hex-table", 1)
+	c04HexTable(c, "C05")
 	// ---- caller-side bounds ----
 	if f := c.fn("netutil", "subnetFromReversedV4"); f != nil && v4 != nil {
 		for _, ci := range core.AllCalls(f) {
@@ -1405,4 +1410,60 @@ func rejectKind(v ssa.Value) string {
 		}
 	}
 	return ""
+}
+
+// c04HexTable: fromHexByte as a function of its 8 input bits, computed exactly
+// (BDD per output bit), equals the hexadecimal digit table: '0'..'9' -> 0..9,
+// 'a'..'f' and 'A'..'F' -> 10..15, every other byte -> 0xff.
+func c04HexTable(c *Ctx, prop string) {
+	f := c.fn("netutil", "fromHexByte")
+	if f == nil {
+		return
+	}
+	m := boolfn.New()
+	ev := &boolfn.Eval{M: m, Entered: map[string]bool{}}
+	ev.InScope = core.InModule
+	in := ev.IntInput(0, 8, false)
+	what := "fromHexByte == the hex digit table on all 256 bytes"
+	rs, err := ev.Call(f, []boolfn.Val{in})
+	if err != nil || len(rs) != 1 || len(rs[0].Bits) != 8 {
+		c.undecided(prop+".hex-table", f, what, nil, sprintf("outside the loop-free grammar: %v", err))
+		return
+	}
+	spec := func(b int) int {
+		switch {
+		case b >= '0' && b <= '9':
+			return b - '0'
+		case b >= 'a' && b <= 'f':
+			return b - 'a' + 10
+		case b >= 'A' && b <= 'F':
+			return b - 'A' + 10
+		}
+		return 0xff
+	}
+	bad := ""
+	for j := 0; j < 8 && bad == ""; j++ {
+		want := 0
+		for b := 0; b < 256; b++ {
+			if spec(b)>>uint(j)&1 == 0 {
+				continue
+			}
+			mt := 1
+			for i := 0; i < 8; i++ {
+				mt = m.And(mt, m.Lit(i, b>>uint(7-i)&1 == 1))
+			}
+			want = m.Or(want, mt)
+		}
+		if got := rs[0].Bits[j]; got != want {
+			w := m.Witness(m.Xor(got, want))
+			v := 0
+			for i := 0; i < 8; i++ {
+				if w[i] {
+					v |= 1 << uint(7-i)
+				}
+			}
+			bad = sprintf("differs at byte 0x%02x (%q): the table says 0x%02x", v, rune(v), spec(v))
+		}
+	}
+	c.check(bad == "", prop+".hex-table", f, what, nil, "exact equality of the eight output bits as Boolean functions of the input byte. "+bad)
 }
